@@ -1,5 +1,9 @@
 import NssVerif.RealInst
 import NssVerif.Lemmas.Estimator
+import NssVerif.Gen.Src.C01
+import NssVerif.Gen.Src.C03
+import Mathlib.Tactic.Linarith
+import Mathlib.Tactic.Ring
 import Mathlib.Algebra.Order.Field.Rat
 
 /-!
@@ -502,5 +506,82 @@ example : ∀ e ∈ tex4, 0 ≤ e.tan2 ∧ 0 < e.pexit ∧ e.pexit ≤ 1 ∧ e.t
   intro e he
   simp [tex4] at he
   rcases he with rfl | rfl | rfl | rfl <;> norm_num
+
+/-! ### source tie: the functions translated from the Python source of the working tree ARE the model
+
+`Gen/Src/C03.lean` is regenerated from `region_geometry.py` on every run (harness/pytrans.py, spec harness/srcspecs/C03.py):
+`RegionGeom.mcintegral` and `RegionGeomToO.mcintegral` for ONE kept event.  The reductions over the event axis are split by
+the translator: the term under each `np.sum / np.var / np.count_nonzero` (the per-event `mcintfactor` at that point) is
+an output (`sum0Arg`: geometry only, `sum1Arg = var0Arg = cnt0Arg`: final factor), the reduced values are inputs
+(`sum0 sum1 var0 cnt0`), `len(...)` is an input.  The estimator core of the model is written against the order `<` of an
+ordered field and the translated source against `Scalar.ltb`, so these equalities are proved over ℝ (where `ltb` IS `<`),
+not by unfolding for every `Scalar`: the cuts are matched case by case and each case is closed by `ring`, so a reordering of
+the products / quotients of the source keeps them intact, a changed cut, constant or factor does not.  The returned values
+are equal by unfolding.  `np.sum` itself (pairwise) is modelled
+by the left-to-right `sumL`; that and `np.var` stay tied by the differential runs only. -/
+
+/-- diffuse mode, the per-event terms: what the source sums for the geometry-only integral is `DEv.geo`, what it sums
+(and counts as non-zero) for the integral is `DEv.contrib` (the event mask selects the event but does not enter its factor) -/
+theorem src_mcDiffuse_terms (e : DEv ℝ) (thr sn ss : ℝ) (m : Bool) (mcnorm n s0 s1 v0 c0 : ℝ) :
+    let r := Gen.Src.C03.mcDiffuse e.trig e.cEff e.pexit thr sn ss e.cTrN e.cNV e.cTrV m mcnorm n s0 s1 v0 c0
+    r.sum0Arg = e.geo ∧ r.sum1Arg = e.contrib thr sn ss ∧ r.var0Arg = e.contrib thr sn ss ∧ r.cnt0Arg = e.contrib thr sn ss := by
+  simp only [Gen.Src.C03.mcDiffuse, DEv.geo, DEv.contrib, DEv.weight, bshr, ScalarReal.ltb_eq, ScalarReal.ofNat_eq]
+  push_cast
+  refine ⟨?_, ?_, ?_, ?_⟩ <;> (first | trivial | (split_ifs <;> first | rfl | ring) | ring)
+
+/-- diffuse mode, the returned values: with the two sums of the per-event terms put in for the reduced inputs, the source
+returns the model's `integral` and `geoOnly` (sum · mcnorm / number thrown); the count is passed through -/
+theorem src_mcDiffuse_returns (evs : List (DEv ℝ)) (thr sn ss mcnorm n v0 c0 : ℝ) (t c p a b d : ℝ) (m : Bool) :
+    let r := Gen.Src.C03.mcDiffuse t c p thr sn ss a b d m mcnorm n
+      (sumL (evs.map DEv.geo)) (sumL (evs.map (DEv.contrib thr sn ss))) v0 c0
+    r.ret0 = (mcDiffuse evs thr sn ss mcnorm n).integral ∧ r.ret1 = (mcDiffuse evs thr sn ss mcnorm n).geoOnly ∧ r.ret2 = c0 :=
+  ⟨rfl, rfl, rfl⟩
+
+/-- target mode with the dark-sky cut (optical channel, cut enabled), the per-instant terms: `TEv.geo` with
+`tan² = tan2OfCos cEff` and `π`, and `TEv.contrib … true optical` -/
+theorem src_mcTargetCut_terms (pathLen lenDec cEff trig pexit : ℝ) (dark : Bool) (thr sn ss nT s0 s1 v0 c0 : ℝ) :
+    let e : TEv ℝ := ⟨pathLen, lenDec, tan2OfCos cEff, trig, pexit, dark⟩
+    let r := Gen.Src.C03.mcTargetCut trig cEff pexit thr sn ss pathLen nT dark lenDec s0 s1 v0 c0
+    r.sum0Arg = e.geo Real.pi ∧ r.sum1Arg = e.contrib Real.pi thr sn ss true Channel.optical
+      ∧ r.var0Arg = r.sum1Arg ∧ r.cnt0Arg = r.sum1Arg := by
+  simp only [Gen.Src.C03.mcTargetCut, TEv.geo, TEv.contrib, tan2OfCos, cutApplies, bshr, ScalarReal.ltb_eq, ScalarReal.ofNat_eq,
+    ScalarReal.pi_eq, ScalarReal.tan_eq, ScalarReal.acos_eq, show (0.0 : ℝ) = 0 by norm_num]
+  push_cast
+  refine ⟨?_, ?_, trivial, trivial⟩ <;> cases dark <;>
+    (try simp only [decide_true, Bool.true_and, Bool.not_false, Bool.not_true, Bool.false_eq_true, if_true, if_false]) <;>
+    (first | trivial | (split_ifs <;> first | rfl | ring) | ring)
+
+/-- target mode on the path without the dark-sky cut (radio channel, or the cut disabled in the configuration): the
+per-instant terms are `TEv.geo` and `TEv.contrib … cutOn ch` for every `(cutOn, ch)` to which the cut does not apply;
+the dark flag of the instant does not enter -/
+theorem src_mcTargetNoCut_terms (pathLen lenDec cEff trig pexit : ℝ) (dark d' : Bool) (thr sn ss nT s0 s1 v0 c0 : ℝ)
+    (cutOn : Bool) (ch : Channel) (hc : cutApplies cutOn ch = false) :
+    let e : TEv ℝ := ⟨pathLen, lenDec, tan2OfCos cEff, trig, pexit, dark⟩
+    let r := Gen.Src.C03.mcTargetNoCut trig cEff pexit thr sn ss pathLen nT d' lenDec s0 s1 v0 c0
+    r.sum0Arg = e.geo Real.pi ∧ r.sum1Arg = e.contrib Real.pi thr sn ss cutOn ch
+      ∧ r.var0Arg = r.sum1Arg ∧ r.cnt0Arg = r.sum1Arg := by
+  simp only [Gen.Src.C03.mcTargetNoCut, TEv.geo, TEv.contrib, tan2OfCos, hc, bshr, ScalarReal.ltb_eq, ScalarReal.ofNat_eq,
+    ScalarReal.pi_eq, ScalarReal.tan_eq, ScalarReal.acos_eq, show (0.0 : ℝ) = 0 by norm_num, Bool.false_and, Bool.false_eq_true,
+    if_false]
+  push_cast
+  refine ⟨?_, ?_, trivial, trivial⟩ <;> (first | trivial | (split_ifs <;> first | rfl | ring) | ring)
+
+/-- target mode, the returned values (both paths): sums of the per-instant terms divided by the number of instants -/
+theorem src_mcTarget_returns (evs : List (TEv ℝ)) (thr sn ss nT v0 c0 : ℝ) (t c p L l : ℝ) (d : Bool) (cutOn : Bool) (ch : Channel) :
+    let s0 := sumL (evs.map (TEv.geo Real.pi))
+    let s1 := sumL (evs.map (TEv.contrib Real.pi thr sn ss cutOn ch))
+    let r := Gen.Src.C03.mcTargetCut t c p thr sn ss L nT d l s0 s1 v0 c0
+    let r' := Gen.Src.C03.mcTargetNoCut t c p thr sn ss L nT d l s0 s1 v0 c0
+    r.ret0 = (mcTarget evs Real.pi thr sn ss nT cutOn ch).integral ∧ r.ret1 = (mcTarget evs Real.pi thr sn ss nT cutOn ch).geoOnly
+      ∧ r.ret2 = c0 ∧ r'.ret0 = r.ret0 ∧ r'.ret1 = r.ret1 ∧ r'.ret2 = r.ret2 := ⟨rfl, rfl, rfl, rfl, rfl, rfl⟩
+
+/-- `mcnorm` as `RegionGeom.__init__` computes it (translated source, `Gen.Src.C01.init`) is the model's `mcnormOfConfig`.
+Over ℝ only: the source evaluates the squares and cubes of its 0-d constants with `pow`, this model multiplies. -/
+theorem src_mcnorm (alt limb thMax azMax lat long : ℝ) :
+    (Gen.Src.C01.init alt limb thMax azMax lat long).mcnorm = mcnormOfConfig alt limb thMax azMax := by
+  simp only [Gen.Src.C01.init, mcnormOfConfig, rEarth, ScalarReal.pow_eq, ScalarReal.ofNat_eq, ScalarReal.pi_eq,
+    ScalarReal.sqrt_eq, ScalarReal.sin_eq, ScalarReal.cos_eq, ScalarReal.acos_eq]
+  norm_num
+  ring_nf
 
 end C03
